@@ -51,9 +51,10 @@ package persistence
 
 //@ func decodeTicketFromRequest
 //@ prop C02 C09 C13
-//@ ensures[ticket-only-from-validated-cookie] ret1 == nil ==> called(Validate) && ret2(Validate) && arg(Validate, 0) == ret0(Cookie)
+//@ at call decodeTicket assert[ticket-only-from-validated-cookie] called(Validate) && ret2(Validate) && arg(Validate, 0) == ret0(Cookie)
 //@     && ret1(Cookie) == nil && arg(Cookie, 1) == cookieOpts.Name && arg(Validate, 1) == cookieOpts.Secret
-//@     && arg(Validate, 2) == cookieOpts.Expire && called(decodeTicket) && arg(decodeTicket, 0) == bytes(ret0(Validate))
+//@     && arg(Validate, 2) == cookieOpts.Expire && arg(decodeTicket, 0) == bytes(ret0(Validate))
+//@ ensures[ticket-only-via-decode] ret0 != nil ==> called(decodeTicket) && ret0 == ret0(decodeTicket)
 //@ ensures[no-cookie-error-unwrapped] ret1(Cookie) != nil ==> ret1 == ret1(Cookie) && ret0 == nil
 
 // ------------------------------------------------------------------ C11 / C13: delete path
